@@ -179,6 +179,10 @@ def generate(rng, tier, index):
         how = rng.choice(["bad-config-path", "unparsable-json", "corrupt-json", "corrupt-yaml", "corrupt-toml", "bad-plugin-path", "strict-set", "bad-scheme-value", "config-is-dir", "corrupt-default+explicit", "corrupt-default+explicit"])
         command = rng.choice(["scan", "fix"])
         tail = [command, "a.md"]
+        if how in ("strict-set", "bad-config-path", "unparsable-json", "corrupt-yaml", "bad-plugin-path") and rng.random() < 0.35:
+            # the same broken configuration through a sub-command
+            tail = rng.choice([["plugins", "list"], ["plugins", "info", "md001"], ["extensions", "list"], ["plugins", "list", "md0*"]])
+            sc["via_subcommand"] = True
         if sc["scheme_source"] not in ("absent", "flag"):
             # configuration-file based scheme selection would conflict with the
             # broken configuration this scenario constructs
@@ -217,7 +221,8 @@ def generate(rng, tier, index):
         elif how == "bad-plugin-path":
             sc["argv_tail"] = ["--add-plugin", "nosuch_plugin.py"] + tail
         elif how == "strict-set":
-            sc["argv_tail"] = ["--strict-config", "--set", "plugins.md013.line_length=$#-5"] + tail
+            bad = rng.choice(["plugins.md013.line_length=$#-5", "extensions.front-matter.enabled=abc", "plugins.md007.indent=$#1"])
+            sc["argv_tail"] = ["--strict-config", "--set", bad] + tail
         elif how == "bad-scheme-value":
             sc["argv_tail"] = ["--set", "mode.return_code_scheme=bogus"] + tail
             sc["flags"], sc["extra"], sc["scheme_source"], sc["scheme"] = [], {}, "absent", "default"
